@@ -187,11 +187,27 @@ func runC05(rc *RunCtx, faulty bool) *simkit.Violation {
 	if v != nil {
 		return v
 	}
-	if ut.Err != nil {
-		if faulty && fired(w) {
-			w.Probe("update-failed-under-faults")
+	retried := false
+	if ut.Err != nil && faulty && fired(w) {
+		// the update failed under faults: the user runs it again (no fault this time); if that run reports success the
+		// directory must be the target bundle, whatever the failed run left behind
+		w.Probe("update-failed-under-faults")
+		rt, v := doOp(prop, w, cl, "update-retry", func() (interface{}, error) {
+			local := core.NewBundle(core.ConsumableStore(localStore(disk)), core.Logger(nopLog))
+			remote := core.NewBundle(core.Repo("r1"), core.ContextStores(d.Stores(cl)), core.BundleID(bb.ID), core.Logger(nopLog), core.ConcurrentFileDownloads(t.Pick(1, 2, 10)))
+			return nil, core.Update(bg, remote, local)
+		})
+		if v != nil {
+			return v
+		}
+		if rt.Err != nil {
+			w.Probe("update-retry-failed-too")
 			return nil
 		}
+		w.Probe("update-retried-after-failure")
+		ut, retried = rt, true
+	}
+	if ut.Err != nil {
 		if c05switch {
 			return Viol(prop, "update-failed", "path-type-switch", "", "fault-free Update failed where a path is a file in one bundle and a directory in the other: %v", ut.Err)
 		}
@@ -219,6 +235,9 @@ func runC05(rc *RunCtx, faulty bool) *simkit.Violation {
 		cls := "update-differs"
 		if strings.Contains(df, ".datamon/") {
 			cls = "update-metadata-differs"
+		}
+		if retried {
+			return Viol(prop, cls, "Update-retry", bb.ID, "an Update(A->B) failed under a fault, its fault-free re-run reported success, but the directory differs from a fresh download of B: %s", df)
 		}
 		return Viol(prop, cls, "Update", bb.ID, "after Update(A->B) the directory differs from a fresh download of B: %s", df)
 	}
